@@ -92,6 +92,15 @@ theorem printer_precedence_eq_parser_binding_power :
     `ParseRemainingExpressionWithPrecedence`) -/
 theorem infix_keys_eq_precedence_keys : Gen.infixFns.map (·.1) = Gen.precedences.map (·.1) := by decide
 
+/-- the precondition of parser termination (C11 `parsing_terminates`, `Total.TablesOk`), read from the EXTRACTED tables:
+    binding powers start at LOWEST, every token binding tighter than LOWEST has an infix parse function, and the
+    end-of-input token has neither an infix nor a prefix parse function -/
+theorem termination_precondition :
+    (∀ kv ∈ Gen.precedences, 1 ≤ kv.2 ∧ (1 < kv.2 → (Gen.infixFns.map (·.1)).contains kv.1 = true)) ∧
+    (Gen.infixFns.map (·.1)).contains TokType.eof.toNat = false ∧
+    (Gen.prefixFns.map (·.1)).contains TokType.eof.toNat = false ∧
+    (Gen.precedences.map (·.1)).contains TokType.eof.toNat = false := by decide
+
 /-- Base64 alphabet and map version -/
 theorem base64 : Gen.base64Chars = base64Table ∧ Gen.base64Chars.length = 64 := by decide
 theorem map_version : Gen.sourceMapVersion = 3 := by decide
